@@ -61,6 +61,7 @@ def main():
             res["applied_3way"] = rc == 0
         res["applies"] = rc == 0
         if rc != 0:
+            sh("git reset -q --hard && git clean -fdq codelimit", wt)
             print("patch does not apply:", out); return 1
         rc, out = sh("%s -m pytest -q -p no:cacheprovider --timeout=900 2>&1 | tail -3" % PY, wt, env)
         res["tests_pass_with_change"] = "157 passed" in out and "failed" not in out
